@@ -1666,3 +1666,101 @@ mod tests {
         };
     }
 }
+
+/// Verification hooks (feature `verif`): the dial ledger of the Kademlia event loop, handler by handler.
+#[cfg(feature = "verif")]
+pub mod verif_hooks {
+    use super::*;
+    use crate::{transport::manager::TransportManager, types::protocol::ProtocolName};
+    use std::task::{Context, Poll, RawWaker, RawWakerVTable, Waker};
+
+    /// A Kademlia instance wired to a transport manager, without any task running.
+    pub struct Kernel {
+        kademlia: Kademlia,
+        event_rx: tokio::sync::mpsc::Receiver<KademliaEvent>,
+    }
+
+    fn noop_waker() -> Waker {
+        fn clone(_: *const ()) -> RawWaker { RawWaker::new(std::ptr::null(), &VTABLE) }
+        fn noop(_: *const ()) {}
+        static VTABLE: RawWakerVTable = RawWakerVTable::new(clone, noop, noop, noop);
+        unsafe { Waker::from_raw(RawWaker::new(std::ptr::null(), &VTABLE)) }
+    }
+
+    fn run<T>(future: impl std::future::Future<Output = T>) -> Option<T> {
+        let mut future = Box::pin(future);
+        let waker = noop_waker();
+        let mut cx = Context::from_waker(&waker);
+        match future.as_mut().poll(&mut cx) {
+            Poll::Ready(value) => Some(value),
+            Poll::Pending => None,
+        }
+    }
+
+    pub fn new_kernel(manager: &mut TransportManager, known: Vec<(PeerId, Multiaddr)>) -> Kernel {
+        let (event_tx, event_rx) = tokio::sync::mpsc::channel(64);
+        let (_cmd_tx, cmd_rx) = tokio::sync::mpsc::channel(64);
+        let config = Config {
+            protocol_names: vec![ProtocolName::from("/verif/kad")],
+            codec: crate::codec::ProtocolCodec::UnsignedVarint(None),
+            replication_factor: 20,
+            known_peers: known.into_iter().map(|(peer, address)| (peer, vec![address])).collect(),
+            update_mode: RoutingTableUpdateMode::Automatic,
+            validation_mode: IncomingRecordValidationMode::Automatic,
+            record_ttl: Duration::from_secs(36 * 60 * 60),
+            memory_store_config: Default::default(),
+            event_tx,
+            cmd_rx,
+            next_query_id: Default::default(),
+        };
+        let service = crate::protocol::transport_service::verif_hooks::new_service(manager);
+        Kernel { kademlia: Kademlia::new(service, config), event_rx }
+    }
+
+    /// What the `FindNode` command does; the query is driven by `drive`.
+    pub fn start_find_node(kernel: &mut Kernel, target: PeerId) -> QueryId {
+        let kademlia = &mut kernel.kademlia;
+        let query_id = kademlia.next_query_id();
+        let candidates = kademlia.routing_table.closest(&Key::from(target), kademlia.replication_factor);
+        kademlia.engine.start_find_node(query_id, target, candidates.into());
+        query_id
+    }
+
+    /// The head of the event loop: run every action the query engine has ready. `false` if a handler suspended.
+    pub fn drive(kernel: &mut Kernel) -> bool {
+        while let Some(action) = kernel.kademlia.engine.next_action() {
+            match run(kernel.kademlia.on_query_action(action)) {
+                None => return false,
+                Some(Ok(())) => {}
+                Some(Err((query, peer))) => {
+                    if run(kernel.kademlia.disconnect_peer(peer, Some(query))).is_none() {
+                        return false;
+                    }
+                }
+            }
+        }
+        true
+    }
+
+    pub fn dial_failure(kernel: &mut Kernel, peer: PeerId, address: Multiaddr) {
+        kernel.kademlia.on_dial_failure(peer, vec![address]);
+    }
+
+    /// Terminal events delivered to the user since the last call: (query, succeeded).
+    pub fn terminal_events(kernel: &mut Kernel) -> Vec<(QueryId, bool)> {
+        let mut out = Vec::new();
+        while let Ok(event) = kernel.event_rx.try_recv() {
+            match event {
+                KademliaEvent::FindNodeSuccess { query_id, .. } => out.push((query_id, true)),
+                KademliaEvent::QueryFailed { query_id } => out.push((query_id, false)),
+                _ => {}
+            }
+        }
+        out
+    }
+
+    /// Number of actions waiting for a dial of `peer`.
+    pub fn waiting_for_dial(kernel: &Kernel, peer: &PeerId) -> usize {
+        kernel.kademlia.pending_dials.get(peer).map_or(0, |actions| actions.len())
+    }
+}
